@@ -100,6 +100,93 @@ Section Rows.
   Qed.
 End Rows.
 
+(* ---------------------------------------------------------------------- *)
+(* visible_line_to_row_col only grows (entries are pushed, never changed) *)
+Section Grows.
+  Variables (sw dw : Z -> Z) (disp : Z -> str).
+  Variables (wrap haspfx : bool) (pfx : Z -> Z -> str).
+  Variables (width height xpos ypos : Z).
+
+  Definition grows (s s' : cst) : Prop := exists l, cvl s' = l ++ cvl s.
+
+  Lemma grows_refl : forall s, grows s s.
+  Proof. intros s. now exists []. Qed.
+  Lemma grows_trans : forall a b c, grows a b -> grows b c -> grows a c.
+  Proof. intros a b c [l1 H1] [l2 H2]. exists (l2 ++ l1). rewrite H2, H1. now rewrite app_assoc. Qed.
+
+  Lemma put_grows : forall isin l kc c s, grows s (put sw dw disp width xpos ypos isin l kc c s).
+  Proof. intros. exists []. unfold put. destruct (_ && _); reflexivity. Qed.
+  Lemma wrap_row_grows : forall l s, grows s (wrap_row l s).
+  Proof. intros. eexists [_]. reflexivity. Qed.
+
+  Lemma copy_plain_grows : forall cs l s, grows s (copy_plain sw dw disp wrap width height xpos ypos cs l s).
+  Proof.
+    induction cs as [|c r IH]; intros l s; cbn [copy_plain]; [apply grows_refl|].
+    destruct (wrap && _).
+    - destruct (height <=? _); [apply wrap_row_grows|].
+      eapply grows_trans; [apply wrap_row_grows|]. eapply grows_trans; [apply put_grows | apply IH].
+    - eapply grows_trans; [apply put_grows | apply IH].
+  Qed.
+
+  Lemma copy_input_grows : forall cs l col sk wc s,
+    grows s (copy_input sw dw disp wrap haspfx pfx width height xpos ypos cs l col sk wc s).
+  Proof.
+    induction cs as [|c r IH]; intros l col sk wc s; cbn [copy_input]; [apply grows_refl|].
+    destruct (wrap && _).
+    - assert (G : grows s (if haspfx then copy_plain sw dw disp wrap width height xpos ypos (pfx l (wc + 1)) l (wrap_row l s)
+                           else wrap_row l s)).
+      { destruct haspfx; [eapply grows_trans; [apply wrap_row_grows | apply copy_plain_grows] | apply wrap_row_grows]. }
+      destruct (height <=? _); [exact G|].
+      eapply grows_trans; [exact G|]. eapply grows_trans; [apply put_grows | apply IH].
+    - eapply grows_trans; [apply put_grows | apply IH].
+  Qed.
+
+  Lemma copy_line_grows : forall h line l s,
+    grows s (copy_line sw dw disp wrap haspfx pfx width height xpos ypos h line l s).
+  Proof.
+    intros h line l s. unfold copy_line.
+    assert (G : grows s (if haspfx then copy_plain sw dw disp wrap width height xpos ypos (pfx l 0) l s else s)).
+    { destruct haspfx; [apply copy_plain_grows | apply grows_refl]. }
+    destruct (h =? 0); [eapply grows_trans; [exact G | apply copy_input_grows]|].
+    destruct (skip_loop sw line h 0) as [[line' h'] sk].
+    eapply grows_trans; [exact G|]. eapply grows_trans; [|apply copy_input_grows].
+    destruct G as [l0 G]. exists []. cbn [cvl]. reflexivity.
+  Qed.
+
+  Lemma copy_lines_grows : forall h rest lineno s,
+    grows s (copy_lines sw dw disp wrap haspfx pfx width height xpos ypos h rest lineno s).
+  Proof.
+    induction rest as [|line r IH]; intros lineno s; cbn [copy_lines]; [apply grows_refl|].
+    destruct (cy s <? height); [|apply grows_refl].
+    set (s0 := mkcst 0 (cy s) (cscr s) (cr2 s) ((cy s, (lineno, h)) :: cvl s)).
+    assert (G0 : grows s s0) by (exists [(cy s, (lineno, h))]; reflexivity).
+    pose proof (copy_line_grows h line lineno s0) as G1.
+    set (sL := copy_line sw dw disp wrap haspfx pfx width height xpos ypos h line lineno s0) in *.
+    assert (G2 : grows sL (mkcst (cx sL) (cy sL + 1) (cscr sL) (cr2 sL) (cvl sL))) by (exists []; reflexivity).
+    eapply grows_trans; [exact G0|]. eapply grows_trans; [exact G1|]. eapply grows_trans; [exact G2|]. apply IH.
+  Qed.
+
+  (* the oldest entry of copy_body's table: row -vertical_scroll_2 shows
+     (vertical_scroll, horizontal_scroll) *)
+  Lemma copy_body_oldest : forall lines st,
+    skipn (Z.to_nat (vs st)) lines <> [] -> - vs2 st < height ->
+    exists l, cvl (copy_body sw dw disp wrap haspfx pfx width height xpos ypos lines st)
+              = l ++ [(- vs2 st, (vs st, hs st))].
+  Proof.
+    intros lines st Hne Hy. unfold copy_body.
+    destruct (skipn (Z.to_nat (vs st)) lines) as [|line r]; [now elim Hne|].
+    cbn [copy_lines cy]. destruct (- vs2 st <? height) eqn:E; [|lia].
+    cbn [cx cy cscr cr2 cvl].
+    match goal with |- context [copy_lines _ _ _ _ _ _ _ _ _ _ ?h r ?ln ?s1] =>
+      destruct (copy_lines_grows h r ln s1) as [l1 G1] end.
+    cbn [cvl] in G1.
+    match type of G1 with _ = l1 ++ cvl ?s2 =>
+      match s2 with copy_line _ _ _ _ _ _ _ _ _ _ ?h ?ln ?l ?s0 =>
+        destruct (copy_line_grows h ln l s0) as [l2 G2] end end.
+    cbn [cvl] in G2. exists (l1 ++ l2). rewrite G1, G2. now rewrite app_assoc.
+  Qed.
+End Grows.
+
 (* lookups *)
 Lemma chain_keys_below : forall L y0 v, chain ((y0, v) :: L) ->
   forall y, y0 <= y -> zlist_get L y = None.
@@ -128,9 +215,9 @@ Proof.
       destruct r as [|[y1 [l1 c1]] r']; [exact I|]. cbn [chain] in H. tauto.
 Qed.
 
-(* The rows clause of C11: in visible_line_to_row_col, two successive rows show
-   the same document line or the next one; the first registered row is
-   (-vertical_scroll_2) and shows line vertical_scroll. *)
+(* The rows clause of C11, part 1: in visible_line_to_row_col, two successive
+   rows show the same document line or the next one.  (First row and
+   contiguity: rows_interval below.) *)
 Lemma rows_consecutive : forall sw dw disp wrap haspfx pfx width height xpos ypos lines st,
   let out := copy_body sw dw disp wrap haspfx pfx width height xpos ypos lines st in
   forall y l c l' c',
@@ -140,4 +227,56 @@ Proof.
   intros sw dw disp wrap haspfx pfx width height xpos ypos lines st out y l c l' c'.
   apply chain_lookup. unfold out, copy_body. apply copy_lines_chain.
   unfold between. cbn [cvl chain]. split; exact I.
+Qed.
+
+(* a chain that ends in (y0, v0): keys are exactly an interval starting at y0 *)
+Lemma chain_tail : forall e L, chain (e :: L) -> chain L.
+Proof. intros [y [l c]] L H. destruct L as [|[y1 [l1 c1]] r]; [exact I|]. cbn [chain] in H. tauto. Qed.
+
+Lemma chain_interval : forall l y0 v0, chain (l ++ [(y0, v0)]) ->
+  zlist_get (l ++ [(y0, v0)]) y0 = Some v0 /\
+  (forall y e, zlist_get (l ++ [(y0, v0)]) y = Some e ->
+     y0 <= y /\ (y0 < y -> exists e', zlist_get (l ++ [(y0, v0)]) (y - 1) = Some e')) /\
+  (match l with [] => True | (y1, _) :: _ => y0 < y1 end).
+Proof.
+  induction l as [|[y1 [l1 c1]] l' IH]; intros y0 v0 H.
+  - cbn [app zlist_get]. rewrite Z.eqb_refl. split; [reflexivity|]. split; [|exact I].
+    intros y e Hg. destruct (y0 =? y) eqn:E; [|discriminate]. split; lia.
+  - cbn [app] in *. pose proof (chain_tail _ _ H) as Ht.
+    destruct (IH y0 v0 Ht) as (I1 & I2 & I3).
+    (* the key below y1 is the head of the tail *)
+    assert (Hnext : exists e', zlist_get (l' ++ [(y0, v0)]) (y1 - 1) = Some e' /\ y0 <= y1 - 1).
+    { destruct l' as [|[y2 [l2 c2]] l'']; cbn [app] in *.
+      - destruct v0 as [a b]. cbn [chain] in H. destruct H as (E & _). subst y1.
+        exists (a, b). cbn [zlist_get]. replace (y0 + 1 - 1) with y0 by lia. rewrite Z.eqb_refl. split; [reflexivity | lia].
+      - cbn [chain] in H. destruct H as (E & _). subst y1.
+        exists (l2, c2). cbn [zlist_get]. replace (y2 + 1 - 1) with y2 by lia. rewrite Z.eqb_refl. split; [reflexivity | lia]. }
+    destruct Hnext as (e' & Hn & Hge).
+    split; [|split].
+    + cbn [zlist_get]. destruct (y1 =? y0) eqn:E; [lia | exact I1].
+    + intros y e Hg. cbn [zlist_get] in Hg |- *. destruct (y1 =? y) eqn:E.
+      * assert (y = y1) by lia. subst y. split; [lia|]. intros _.
+        destruct (y1 =? y1 - 1) eqn:E2; [lia|]. now exists e'.
+      * destruct (I2 y e Hg) as [Hy0 Hprev]. split; [exact Hy0|]. intros Hlt.
+        destruct (Hprev Hlt) as [e2 He2]. destruct (y1 =? y - 1) eqn:E3; eauto.
+    + lia.
+Qed.
+
+(* The rows clause of C11, strengthened: the first registered row is
+   -vertical_scroll_2 and shows (vertical_scroll, horizontal_scroll); the
+   registered rows form a contiguous interval starting there (no gap); and
+   successive rows show the same document line or the next one. *)
+Lemma rows_interval : forall sw dw disp wrap haspfx pfx width height xpos ypos lines st,
+  skipn (Z.to_nat (vs st)) lines <> [] -> - vs2 st < height ->
+  let out := copy_body sw dw disp wrap haspfx pfx width height xpos ypos lines st in
+  zlist_get (cvl out) (- vs2 st) = Some (vs st, hs st) /\
+  (forall y e, zlist_get (cvl out) y = Some e ->
+     - vs2 st <= y /\ (- vs2 st < y -> exists e', zlist_get (cvl out) (y - 1) = Some e')).
+Proof.
+  intros sw dw disp wrap haspfx pfx width height xpos ypos lines st Hne Hy out.
+  destruct (copy_body_oldest sw dw disp wrap haspfx pfx width height xpos ypos lines st Hne Hy) as [l Hl].
+  assert (Hc : chain (cvl out)).
+  { unfold out, copy_body. apply copy_lines_chain. unfold between. cbn [cvl chain]. split; exact I. }
+  fold out in Hl. rewrite Hl in *.
+  destruct (chain_interval l _ _ Hc) as (A & B & _). split; [exact A | exact B].
 Qed.
